@@ -113,6 +113,9 @@ func (e *Engine) run(st *State, stop *ssa.BasicBlock, depth int) []*State {
 		if e.stats.Steps > e.opts.MaxSteps {
 			e.abort(fmt.Sprintf("step budget (%d) exceeded", e.opts.MaxSteps))
 		}
+		if e.stats.Steps&0xfff == 0 && e.stats.Steps > 2_000_000 && memPressure.Load() {
+			e.abort("memory budget exceeded (process heap above GOSMT_MEM_GB)")
+		}
 		if e.trace {
 			fmt.Printf("  [%d] %s: %v\n", len(st.frames), f.fn.Name(), ins)
 		}
@@ -698,6 +701,8 @@ func (e *Engine) boundsCheck(st *State, ok *Term, kind string, ins ssa.Instructi
 		if !e.knownPanicSite(st, ok, kind, ins) {
 			e.prove(st, "panic", kind, ok, ins, "", nil)
 		}
+	} else if !inHarnessSupport(ins) {
+		e.notePathEnd(st.pc, e.tt.BNot(ok), kind, e.pos(ins))
 	}
 	st.assume(ok)
 	return true
